@@ -188,6 +188,43 @@ def delete_ctx(kind: int, xs: List[int], k: int, ignore: bool) -> bool:
     return True
 
 
+def delete_s_rooted(present: int, style: int, ignore: bool, v: int, w: int) -> bool:
+    """S-rooted destinations: Delete(S['acc']['a']['b']) with 0-2 of the containers present; the Delete step returns ITS
+    TARGET (not the scope), the scope variable gets the plain `del`, the target itself is untouched"""
+    from glom import Coalesce
+    start()
+    present, style = concretize(present, 0, 2), concretize(style, 0, 1)
+    if present is OUT or style is OUT:
+        return True
+    acc = {'other': w}
+    if present >= 1:
+        acc['a'] = {'keep': w}
+    if present >= 2:
+        acc['a']['b'] = v
+    exp_acc = copy.deepcopy(acc)
+    if present >= 2:
+        del exp_acc['a']['b']
+    dest = S['acc']['a']['b'] if style == 0 else Path(S['acc'], 'a', 'b')
+    t = {'x': w}
+    seen = {}
+
+    def grab(tt):
+        seen['t'] = tt
+        return tt
+    spec = (S(acc=Val(acc)), Delete(dest, ignore_missing=ignore), grab, {'acc': S['acc'], 'x': 'x'})
+    got = run(lambda: glom(t, spec, glom_debug=True))
+    reach('del_s_rooted')
+    if present < 2 and not ignore:
+        return (got.kind == 'err' and acc == exp_acc) or fail(why='missing element without ignore_missing must fail and change nothing', got=got, acc=acc)
+    if got.kind != 'ok':
+        return fail(why='S-rooted delete failed', got=got)
+    if seen.get('t') is not t:
+        return fail(why='the Delete step must return its target', seen=repr(seen.get('t'))[:200])
+    if got.value != {'acc': exp_acc, 'x': w}:
+        return fail(why='scope variable differs from plain del (or the next step did not see the target)', got=got.value, exp=exp_acc)
+    return t == {'x': w} or fail(why='target touched', t=t)
+
+
 def _mk_parent(kind, v):
     """final parents of different kinds that all accept the segment '0' / 'k'"""
     if kind == 0:
@@ -312,6 +349,8 @@ def obligations(tier):
     for shape in range(5):
         obs.append(Ob(delete_wild, fixed={'shape': shape}, pre='1 <= n <= 3', name='delete_wild_%d' % shape))
     obs.append(Ob(delete_fn, pre='0 <= which <= 4 and len(xs) <= 2', name='delete_fn'))
+    obs.append(Ob(delete_s_rooted, pre='0 <= present <= 2 and 0 <= style <= 1', name='delete_s_rooted'))
+    obs.append(Ob(delete_s_rooted, pre='0 <= present <= 2 and 0 <= style <= 1', twin='del_s_rooted', name='delete_s_rooted'))
     obs.append(Ob(delete_ctx, pre='0 <= kind <= 3 and len(xs) <= 3', name='delete_ctx'))
     obs.append(Ob(delete_ctx, pre='0 <= kind <= 3 and len(xs) <= 3', twin='delete_ctx', name='delete_ctx'))
     wp = '0 <= style <= 2 and 0 <= s0 <= 2 and 0 <= s1 <= 2 and 0 <= s2 <= 2'
